@@ -41,10 +41,16 @@ type corpusFile struct {
 }
 
 func plyGeneric(format fileformats.PLYFormat, zeroCount bool, intLen bool) []byte {
-	lenType := fileformats.PLYPropertyType(fileformats.PLYPropertyTypeUchar)
 	if intLen {
-		lenType = fileformats.PLYPropertyTypeInt
+		return plyGenericLen(format, zeroCount, fileformats.PLYPropertyTypeInt)
 	}
+	return plyGenericLen(format, zeroCount, fileformats.PLYPropertyTypeUchar)
+}
+
+// plyGenericLen: the generic file with a list whose length field has the given (possibly signed, possibly narrow)
+// type - every signed width has its own negative-length path in the decoder.
+func plyGenericLen(format fileformats.PLYFormat, zeroCount bool, lenType fileformats.PLYPropertyType) []byte {
+	intLen := lenType == fileformats.PLYPropertyTypeInt
 	h := &fileformats.PLYHeader{Format: format, Elements: []*fileformats.PLYElement{
 		{Name: "thing", Count: 2, Properties: []*fileformats.PLYProperty{
 			{Name: "a", ElemType: fileformats.PLYPropertyTypeShort},
@@ -62,6 +68,16 @@ func plyGeneric(format fileformats.PLYFormat, zeroCount bool, intLen bool) []byt
 		ev.Fatal("corpus: %v", err)
 	}
 	mkLen := func(n int) fileformats.PLYValue {
+		switch lenType {
+		case fileformats.PLYPropertyTypeChar:
+			return fileformats.PLYValueInt8{Value: int8(n)}
+		case fileformats.PLYPropertyTypeShort:
+			return fileformats.PLYValueInt16{Value: int16(n)}
+		case fileformats.PLYPropertyTypeUshort:
+			return fileformats.PLYValueUint16{Value: uint16(n)}
+		case fileformats.PLYPropertyTypeUint:
+			return fileformats.PLYValueUint32{Value: uint32(n)}
+		}
 		if intLen {
 			return fileformats.PLYValueInt32{Value: int32(n)}
 		}
@@ -120,6 +136,15 @@ func corpus() []corpusFile {
 		{"ply-ascii-generic", "ply", false, plyGeneric(fileformats.PLYFormatASCII, true, false)},
 		{"ply-le-generic", "ply", true, plyGeneric(fileformats.PLYFormatBinaryLittle, true, false)},
 		{"ply-be-generic-intlen", "ply", true, plyGeneric(fileformats.PLYFormatBinaryBig, false, true)},
+		{"ply-ascii-generic-shortlen", "ply", false, plyGenericLen(fileformats.PLYFormatASCII, false, fileformats.PLYPropertyTypeShort)},
+		{"ply-le-generic-shortlen", "ply", true, plyGenericLen(fileformats.PLYFormatBinaryLittle, false, fileformats.PLYPropertyTypeShort)},
+		{"ply-be-generic-charlen", "ply", true, plyGenericLen(fileformats.PLYFormatBinaryBig, false, fileformats.PLYPropertyTypeChar)},
+		{"ply-ascii-generic-charlen", "ply", false, plyGenericLen(fileformats.PLYFormatASCII, false, fileformats.PLYPropertyTypeChar)},
+		{"ply-le-generic-uintlen", "ply", true, plyGenericLen(fileformats.PLYFormatBinaryLittle, false, fileformats.PLYPropertyTypeUint)},
+		{"ply-ascii-generic-ushortlen", "ply", false, plyGenericLen(fileformats.PLYFormatASCII, false, fileformats.PLYPropertyTypeUshort)},
+		// an element that declares no properties: its rows occupy no bytes, so its count is all that bounds the work
+		{"ply-ascii-propertyless-element", "ply", false, []byte("ply\nformat ascii 1.0\nelement marker 1\nelement vertex 3\nproperty float x\nproperty float y\nproperty float z\nelement face 1\nproperty list uchar int vertex_index\nend_header\n\n0 0 0\n1 0 0\n0 1 0.5\n3 0 1 2\n")},
+		{"ply-le-propertyless-element", "ply", true, append([]byte("ply\nformat binary_little_endian 1.0\nelement marker 2\nelement tail 1\nproperty uchar u\nend_header\n"), 7)},
 		{"csv", "csv", false, csv},
 		// a valid coloured PLY with one more element whose properties reuse the names x and red with other types
 		{"ply-ascii-extra-element", "ply", false, []byte(plyExtra)},
